@@ -10,6 +10,11 @@ sys.path.insert(0, HERE)
 CHECKS = {}   # filled by vf/props modules that exist: id -> (category, text, note, technique, design_ref)
 
 TABLE = {
+    "C14": ("exploration",
+            "Metamorphic runtime check: every rotation of a kernel is analysed by the real pipeline from a fresh parse and the reported loop-carried dependency sets (members mapped back to original instruction indices, latencies) and their maximum are compared across all offsets, for the shipped corpus (<= 40 lines) on shipped models and for generated register, store/load and write-back kernels on synthetic and shipped models.",
+            "Trusted: the rotation/mapping code in vf/props/c14.py; complete LCD search (timeout -1) per rotation.",
+            "runtime monitoring: metamorphic re-execution over all rotation offsets",
+            "C14"),
     "C05": ("exploration",
             "The dictionary returned by the real get_loopcarried_dependencies() is compared with an own exhaustive enumeration of winding-number-1 cycles over the dependency relation of two explicitly concatenated iterations (relation from the real create_DG on the concatenated text, cross-checked against the pure reference relation on the generator's AST): same cycles, each once, members and latency = sum along the cycle, summary figure = maximum; kernels of up to 12 instructions at file line offsets 0/500/998/5000, with and without flag dependencies.",
             "Trusted: vf/ref_graph.cycles_winding_one, vf/depgen (R-deps); the edge relation is C03/C06's subject and disagreements there are only counted here.",
